@@ -151,6 +151,29 @@ theorem code_lt (b : Nat) (w : List Nat) (hw : ∀ r ∈ w, r < 2 ^ b) : code b 
     rw [Nat.add_mul] at h3
     omega
 
+/-- words over the alphabet with equal length and equal rank code are equal -/
+theorem code_rank_injective (alpha u v : List Nat) (hu : ∀ c ∈ u, c ∈ alpha) (hv : ∀ c ∈ v, c ∈ alpha)
+    (hl : u.length = v.length)
+    (h : code (bitsFor alpha.length) (u.map (rank alpha)) = code (bitsFor alpha.length) (v.map (rank alpha))) :
+    u = v := by
+  have fits : ∀ c ∈ alpha, rank alpha c < 2 ^ bitsFor alpha.length :=
+    fun c hc => Nat.lt_of_lt_of_le (rank_lt_length hc) (le_two_pow_bitsFor _)
+  have hr := code_injective (bitsFor alpha.length) (u.map (rank alpha)) (v.map (rank alpha)) (by simpa using hl)
+    (by intro r hr; rcases List.mem_map.mp hr with ⟨c, hc, rfl⟩; exact fits c (hu c hc))
+    (by intro r hr; rcases List.mem_map.mp hr with ⟨c, hc, rfl⟩; exact fits c (hv c hc)) h
+  clear h
+  induction u generalizing v with
+  | nil => cases v with
+    | nil => rfl
+    | cons _ _ => simp at hl
+  | cons a u ih =>
+    cases v with
+    | nil => simp at hl
+    | cons b v =>
+      simp only [List.map_cons, List.cons.injEq] at hr
+      have hab := rank_injective (hu a (by simp)) (hv b (by simp)) hr.1
+      rw [hab, ih v (fun c hc => hu c (by simp [hc])) (fun c hc => hv c (by simp [hc])) (by simpa using hl) hr.2]
+
 /-! ### position lists -/
 
 theorem mem_qgramPositions (mc : Nat) (g t : List Nat) (i : Nat) :
